@@ -386,7 +386,24 @@ func checkC16(c C16Case, o *vcore.Obs) error {
 		return nil
 	}
 	consume := func(where string) (bool, error) {
-		inst, u := r.Next()
+		// (Next never blocks for long by contract: a watchdog turns a wedged receiver into a verdict)
+		type nextRes struct {
+			inst string
+			u    snapshot.Update
+		}
+		nch := make(chan nextRes, 1)
+		go func() {
+			i, u := r.Next()
+			nch <- nextRes{i, u}
+		}()
+		var inst string
+		var u snapshot.Update
+		select {
+		case res := <-nch:
+			inst, u = res.inst, res.u
+		case <-time.After(15 * time.Second):
+			return false, fmt.Errorf("%s: Receiver.Next() has not returned within 15 s: the receiver is wedged\nreceiver goroutines:\n%s", where, receiverGoroutines())
+		}
 		if inst == "" {
 			return false, nil
 		}
